@@ -80,3 +80,33 @@ def blsrepr(ctx, obj, mech, what, case, divisors=(1, 8, 32, 64)):
         ctx.violation(mech + "/str", "%s: unparsable rendering %r" % (what, str(obj)[:200]), case)
         return False
     return compare(ctx, obj, t, mech, what, case, divisors=divisors, expand_limit=512, impl_tree=t)
+
+
+def member(ctx, obj, value: int, divisors=(8, 16, 32, 64), expand_limit=3000):
+    """
+    Is `value` an element of the live BitLengthSet `obj`?  Decided by full expansion when the implementation can do it
+    cheaply, otherwise by the necessary conditions min <= value <= max and value mod d in (obj % d).
+    Returns (verdict: bool, how: str).
+    """
+    if not (obj.min <= value <= obj.max):
+        return False, "outside [min, max] = [%d, %d]" % (obj.min, obj.max)
+    try:
+        it = R.parse(str(obj))
+    except ValueError:
+        return True, "unparsable"
+    if R.ref_max(it) <= 100000:
+        try:
+            imemo = {}
+            mask = R.ref_expand_mask(it, limit_bits=1 << 17, _memo=imemo)
+            if R.popcount(mask) <= expand_limit:
+                meter = R.CostMeter(100000)
+                meter.expand(it, imemo)
+                ctx.mon("member-exact")
+                return (value in set(obj)), "exact expansion"
+        except R.TooBig:
+            pass
+    for d in affordable_divisors(it, divisors):
+        ctx.mon("member-residue")
+        if value % d not in set(obj % d):
+            return False, "residue %d mod %d not in %s" % (value % d, d, sorted(obj % d))
+    return True, "residues"
